@@ -81,9 +81,12 @@ func readMarker(r io.ByteReader) (marker, error) {
 		return invalidMarker, fmt.Errorf("invalid marker identifier %0x", b)
 	}
 
-	b, err = r.ReadByte()
-	if err != nil {
-		return invalidMarker, err
+	// Any marker may be preceded by any number of 0xff fill bytes
+	for b == 0xff {
+		b, err = r.ReadByte()
+		if err != nil {
+			return invalidMarker, err
+		}
 	}
 
 	return makeMarker(b, r)
